@@ -432,48 +432,49 @@ func (ms *Modules) Process() []error {
 	mods := make([]*Module, 0, len(modules)+len(submodules))
 	mods = append(mods, modules...)
 	mods = append(mods, submodules...)
-	for len(mods) > 0 {
-		var processed int
-		for i := 0; i < len(mods); {
-			m := mods[i]
-			p, s := ToEntry(m).Augment(false)
-			processed += p
-			if s == 0 {
-				mods[i] = mods[len(mods)-1]
-				mods = mods[:len(mods)-1]
-				continue
+	// Augments can depend on augments, and an augment whose path leads
+	// through the case statement that FixChoice inserts around a shorthand
+	// choice member finds its target only after FixChoice.  So: apply
+	// augments until no progress is made, fix up the choices, and start over
+	// as long as that made progress; what is left then has no target.
+	for round := 0; ; round++ {
+		var applied int
+		for len(mods) > 0 {
+			var processed int
+			for i := 0; i < len(mods); {
+				m := mods[i]
+				p, s := ToEntry(m).Augment(false)
+				processed += p
+				if s == 0 {
+					mods[i] = mods[len(mods)-1]
+					mods = mods[:len(mods)-1]
+					continue
+				}
+				i++
 			}
-			i++
+			applied += processed
+			if processed == 0 {
+				break
+			}
 		}
-		if processed == 0 {
+
+		// Now fix up all the choice statements to add in the missing case
+		// statements.
+		for _, m := range modules {
+			ToEntry(m).FixChoice()
+		}
+		for _, m := range submodules {
+			ToEntry(m).FixChoice()
+		}
+		if len(mods) == 0 || (round > 0 && applied == 0) {
 			break
 		}
-	}
-
-	// Now fix up all the choice statements to add in the missing case
-	// statements.
-	for _, m := range modules {
-		ToEntry(m).FixChoice()
-	}
-	for _, m := range submodules {
-		ToEntry(m).FixChoice()
 	}
 
 	// Go through any modules that have remaining augments and report
 	// them.
 	for _, m := range mods {
 		ToEntry(m).Augment(true)
-	}
-	// An augment whose path leads through one of the case statements just
-	// inserted could only be applied now; what it put into a choice needs
-	// its case statement as well.
-	if len(mods) > 0 {
-		for _, m := range ms.Modules {
-			ToEntry(m).FixChoice()
-		}
-		for _, m := range ms.SubModules {
-			ToEntry(m).FixChoice()
-		}
 	}
 	// Collect the errors of all modules, not only of those with
 	// remaining augments: merging an augment records conflicts on the
